@@ -10,5 +10,11 @@ def run(tier):
                        nontrivial=lambda vd, m: vd["wit"]["stagnations"] > 0,
                        rule="same executions as C03 (MGM, MGM2; min and max; with and without own-value costs); AlgoMon checks "
                             "OneOpt(assignment) (Dcop.tla: no single variable can strictly improve the global cost) whenever two "
-                            "consecutive equal-cycle snapshots are identical; non-trivial = at least one such stagnating cycle observed")
+                            "consecutive equal-cycle snapshots are identical; non-trivial = at least one such stagnating cycle observed. "
+                            "MODEL: Mgm.tla checked by TLC over every start order, FIFO delivery order and random draw on TLC-drawn "
+                            "instances (invariant StagnationIsOneOpt over the cycle-boundary history, plus the structural ones), every "
+                            "explored transition replayed on the real MgmComputation objects; if they leave the model, their own "
+                            "reachable graph (and that of further instances) is explored and judged by TLC (Judge_Hist)")
+    from ..mgmmodel import model_part
+    model_part(v, tier, ["StagnationIsOneOpt"], CLAUSES, ["c04"], seed_off=4)
     return v.finish()
